@@ -582,7 +582,7 @@ impl SubRule {
                     return Ok(false)
                 }
             }
-            if cur_syll.segments != syll_to_match.segments {
+            if cur_syll.segments != segs_to_match {
                 return Ok(false)
             }
         } else if cur_syll.segments != segs_to_match || cur_syll.stress != syll_to_match.stress || cur_syll.tone != syll_to_match.tone {
